@@ -12,7 +12,7 @@ SCALARS = {'NumCPUs': [1, 2, 8, 16, 0], 'CookieAuthentication': [True, False], '
 LIST_ITEMS = ['notice stdout', 'debug file /x y', '9050', '9050 IsolateDestAddr', 'unix:/s', 'reject *:25', 'accept *:*', 'a', '']
 # values with backslashes and quotes (Tor reports them raw in GETCONF / CONF_CHANGED; SETCONF has to escape them)
 LIST_ITEMS_ESC = ['notice file \\\\host\\share\\x.log', 'info file C:\\tor\\"my log".txt']
-COMMA_ITEMS = ['21', '22', '80', 'relayA', '{us}', '$ABCD', '10.0.0.0/8']
+COMMA_ITEMS = ['21', '22', '80', 'relayA', '{us}', '$ABCD', '10.0.0.0/8', '10 minutes', '1 hour']   # (elements may contain blanks: only commas separate)
 # the pool the C11 tables are drawn from
 POOL = [('SocksPort', 'PortLines'), ('DNSPort', 'PortLines'), ('Log', 'LineList'), ('ExitPolicy', 'LineList'),
         ('LongLivedPorts', 'CommaList'), ('ExcludeNodes', 'RouterList'), ('CookieAuthentication', 'Boolean'), ('AvoidDiskWrites', 'Boolean'),
